@@ -203,6 +203,13 @@ func (reader *H265Reader) NextNAL() (*NAL, error) {
 		return nil, io.EOF
 	}
 
+	if reader.shouldSkipNAL(NalUnitType((reader.nalBuffer[0] & 0x7E) >> 1)) {
+		// the stream ended with a unit that is to be skipped
+		reader.nalBuffer = nil
+
+		return nil, io.EOF
+	}
+
 	nal := newNal(reader.nalBuffer)
 	reader.nalBuffer = nil
 	nal.parseHeader()
